@@ -14,7 +14,8 @@ FullMenu == {
     Op(7, "query", <<"a", "b">>, "-"),
     Op(8, "del",   <<"a">>,      "-"),
     Op(9, "del",   <<"a", "b">>, "-"),
-    Op(10, "add",  <<>>,         "v1") }
+    Op(10, "add",  <<>>,         "v1"),
+    Op(11, "del",  <<>>,         "-") }
 
 \* three-process runs: the operations whose interplay matters (two creators, a handle writer, a visitor, a delete)
 CoreMenu == {x \in FullMenu : x.id \in {1, 3, 6, 7, 8}}
